@@ -52,6 +52,68 @@ var ctors = map[string]func() interface{}{
 	"RequestDoubleQueue":  func() interface{} { return queue.NewRequestDoubleQueue(0, 0) },
 }
 
+// the queues take their bound at construction
+var boundedCtors = map[string]func(n int) interface{}{
+	"RequestQueue":       func(n int) interface{} { return queue.NewRequestQueue(n) },
+	"RequestDoubleQueue": func(n int) interface{} { return queue.NewRequestDoubleQueue(n, n) },
+}
+
+// the bound of a "full" instance
+const bound = 3
+
+// newFull builds an instance whose bound (SetMax / capacity) is in force and
+// reached: the next insertion of a new element takes the eviction / refusal
+// path.  ok = false: the type has no bound.
+func newFull(name string) (obj interface{}, ok bool, err error) {
+	if mk := boundedCtors[name]; mk != nil {
+		obj = mk(bound)
+	} else {
+		mk := ctors[name]
+		if mk == nil {
+			return nil, false, fmt.Errorf("no constructor registered for table type %s", name)
+		}
+		obj = mk()
+		sm := reflect.ValueOf(obj).MethodByName("SetMax")
+		if !sm.IsValid() || sm.Type().NumIn() != 1 || sm.Type().In(0).Kind() != reflect.Int {
+			return nil, false, nil
+		}
+		sm.Call([]reflect.Value{reflect.ValueOf(bound)})
+	}
+	if err := fill(obj, name, bound); err != nil {
+		return nil, false, err
+	}
+	return obj, true, nil
+}
+
+// fill inserts the elements 1..n (both lanes of the double queue)
+func fill(obj interface{}, name string, n int) error {
+	v := reflect.ValueOf(obj)
+	var ins reflect.Value
+	for _, m := range inserters {
+		if x := v.MethodByName(m); x.IsValid() {
+			ins = x
+			break
+		}
+	}
+	if !ins.IsValid() {
+		return fmt.Errorf("%s: no inserting method among %v", name, inserters)
+	}
+	for i := 1; i <= n; i++ {
+		args, err := synthArgs(obj, name, ins.Type(), i)
+		if err != nil {
+			return err
+		}
+		ins.Call(args)
+	}
+	if m := v.MethodByName("Put2"); m.IsValid() {
+		for i := 1; i <= n; i++ {
+			args, _ := synthArgs(obj, name, m.Type(), 10+i)
+			m.Call(args)
+		}
+	}
+	return nil
+}
+
 // the methods that insert one element, tried in this order when populating
 var inserters = []string{"Put", "Add", "Put1"}
 
